@@ -182,7 +182,7 @@ func (c *Ctx) chargesOneP(f *ssa.Function, params map[*ssa.Parameter]int64, memo
 }
 
 func ruleC07(c *Ctx) {
-	c.Explain("C07 (structural part): cost lower bound + who-writes + value-origin + branch facts. Decided: every opcode handler in the ops table passes, on every success path, an applyCost(k) with constant k ≥ 1 whose error is propagated (directly or through a helper with that summary), and the expansion path of step charges 1 — so every executed instruction consumes gas; runLimit is written only by applyCost (decrease, clamped to 0 with an error when the cost exceeds it), pop (refund of exactly the removed item) and the two VM constructions; a value obtained from pop (already refunded) re-enters a stack only through the charging push functions; the data/alt stack fields are written only by the listed functions; the child VM of CHECKPREDICATE is a fresh struct whose gas is charged to the parent first and whose alt stack starts empty; Verify's remaining gas reaches updateUsage, which rejects negatives. Not decided: the numeric value of remaining gas.")
+	c.Explain("C07 (structural part): cost lower bound + who-writes + value-origin + branch facts. Decided: every opcode handler in the ops table passes, on every success path, an applyCost(k) with constant k ≥ 1 whose error is propagated (directly or through a helper with that summary), and the expansion path of step charges 1 — so every executed instruction consumes gas; runLimit is written only by applyCost (decrease, clamped to 0 with an error when the cost exceeds it), pop (refund of exactly the removed item) and the two VM constructions; a value obtained from pop (already refunded) re-enters a stack only through the charging push functions; the data/alt stack fields are written only by the listed functions; the child VM of CHECKPREDICATE is a fresh struct whose gas is charged to the parent first and whose alt stack starts empty; Verify's remaining gas reaches updateUsage, which rejects negatives; Verify and run charge immediately (a cost deferred outside an instruction is cleared by step and never paid); CHECKPREDICATE's non-constant refunds are computed from the child VM alone. Not decided: the numeric value of remaining gas.")
 	hs := c.vmHandlers()
 	memo := map[*ssa.Function]int{}
 	for _, h := range hs {
@@ -344,6 +344,8 @@ func ruleC07(c *Ctx) {
 		}
 		c.Require("order", fname(cp)+": child limit charged to the parent before the child is created", okc, "applyCost(limit) dominates runLimit: limit")
 	}
+	c.childRefunds("valueorigin")
+	c.deferredOnlyInsideStep("costlb")
 	// gas result flows to updateUsage
 	cv := c.Func(pVal, "checkValid")
 	if cv != nil {
